@@ -204,9 +204,14 @@ def updEffs (nn : Bool) (q : Pol) (key cost : BitVec 64) : List Eff :=
 where updLowerOrRaise (prev cost : Int) : Bool :=
   Gen.Policy.updLower (w64 prev) (w64 cost) || Gen.Policy.updRaise (w64 cost) (w64 prev)
 
+/-- `-x` and `^(x-1)` are the same two's-complement negation (either spelling of the source is
+normalised to the second) -/
+theorem neg_eq_not_sub_one (x : BitVec 64) : -x = ~~~(x - 1#64) := by bv_omega
+
 theorem sampledLFU_updateIfHas_effs (g : SampledLFU) (k c : BitVec 64) :
     (sampledLFU_updateIfHas g k c).2.2 = updEffs g.metrics_nonnil (absPol g) k c := by
   unfold sampledLFU_updateIfHas updEffs updEffs.updLowerOrRaise updMetricDelta
+  try simp only [neg_eq_not_sub_one]
   simp only [absPol, lookup_absKC]
   cases h : g.keyCosts.lookup k with
   | none => simp
